@@ -251,7 +251,10 @@ def main(argv=None):
         rest = [x for x in vectors if x["expect"] == "any"]
         grid = [x for x in rest if x["v"]["dev"] == "graph_spec_grid"]
         rest = [x for x in rest if x["v"]["dev"] != "graph_spec_grid"]
-        keep = must[::2] + ck.rng.sample(rest, 800) + ck.rng.sample(grid, 250)
+        # the corners of the grid (two or more zero arguments) always, a sample of the rest
+        corners = [x for x in grid if list(x["v"]["valid"]).count("0") >= 2]
+        others = [x for x in grid if list(x["v"]["valid"]).count("0") < 2]
+        keep = must[::2] + ck.rng.sample(rest, 800) + corners + ck.rng.sample(others, 150)
         other = [x for x in vectors if x["v"]["tool"] in ("cnfshuffle", "kthlist2pebbling")]
         seen = set()
         vectors = []
